@@ -1027,21 +1027,23 @@ def corr_propver(ck: Ck, base: str, glue: dict) -> None:
         if got != want and not (want.startswith('!') and got.startswith('!')):
             bad.append(f'one record of {size} bytes, BSP version {bv}, header {hdr}, named {pre or "-"}: table {want or "-"}, implementation {got or "-"}')
     sizes = {m[0]: m[2] for m in t['members']}
-    for pre, rec, written, _lad in t['writer']:
+    for pre, rec, written, _lad, hw in t['writer']:
         b.version = B.VERSIONS.HL2_EP1
         b.static_prop_version = fmt_of(pre)
+        b.game_lumps[b'sprp'].version = 255
         try:
             with U.time_limit(U.IMPL_TIME_LIMIT):
                 data = bytes(b._lmp_write_props([B.StaticProp('m', Vec(), Angle())]))
             (nm,) = struct.unpack_from('<i', data, 0)
             (nl,) = struct.unpack_from('<i', data, 4 + 128 * nm)
             got_size = len(data) - (4 + 128 * nm + 4 + leaf_w * nl + 4)
-            got = (b.static_prop_version.name, got_size)
+            got = (b.static_prop_version.name, got_size, b.game_lumps[b'sprp'].version)
         except Exception as e:      # noqa: BLE001
-            got = ('!' + type(e).__name__, 0)
+            got = ('!' + type(e).__name__, 0, 255)
         ck.count('prop_format_table_rows_compared')
-        if got != (rec, sizes.get(written, 0)):
-            bad.append(f'writer, recorded before {pre or "-"}: table records {rec}, writes in {written} ({sizes.get(written, 0)} bytes); implementation {got}')
+        if got != (rec, sizes.get(written, 0), hw):
+            bad.append(f'writer, recorded before {pre or "-"}: table records {rec}, writes in {written} ({sizes.get(written, 0)} bytes), header number '
+                       f'{hw} (255 = left as it was); implementation {got}')
     ck.obligation('correspondence:prop_version_choice', not bad,
                   f'{len(t["empty"]) + len(t["sized"]) + len(t["writer"])} table rows (every BSP version x header number x record size x format named) '
                   f'against _lmp_read_props / _lmp_write_props: {len(bad)} disagreements' + (': ' + '; '.join(bad[:5]) if bad else ''))
@@ -1067,6 +1069,20 @@ def version_histories(ck: Ck, base: str, wd: str) -> None:
                 ck.hist('history_header_number', str(hdr))
                 ck.hist('history_format_chosen_for_empty_lump', chosen)
                 ck.seen(('from_empty', cfg, hdr, seed))
+                # the same file opened by an object that never reads anything: a world is assigned, saved, re-read
+                # (quick tier: every header number in one layout per round, rotating; thorough: every layout)
+                res2: dict[str, str] = {}
+                g2, chosen2 = None, '?'
+                if ck.thorough or len(ck.tie_broken) or U.CONFIGS.index(cfg) == (hdr + rnd) % len(U.CONFIGS):
+                    res2, g2, chosen2 = U.from_empty(base, wd, cfg, hdr, seed, feats, 3 if rnd == 0 else 4, read_first=False)
+                    ck.count('histories_never_read_then_assign')
+                for view, diff in res2.items():
+                    key = f'never-read-then-assign:{view}' + (f':header-{hdr}' if view == 'props' or view.startswith('!') else '')
+                    ck.violation(key, f'a file (static-prop header number {hdr}, layout {cfg}) is opened, a world is assigned without any view being read, '
+                                      f'saved (static props written as {chosen2}) and re-read by a fresh object: {diff}',
+                                 {'history': 'never_read', 'cfg': cfg, 'header': hdr, 'seed': seed, 'feats': sorted(feats),
+                                  'size': g2.size if g2 is not None else 3, 'hview': view, 'chosen': chosen2, 'diff': diff,
+                                  'how': 'harness.c11_util.from_empty(base, dir, cfg, header, seed, feats, size, read_first=False); ./check C11 --replay <this file>'})
                 for view, diff in res.items():
                     where = 'v20' if cfg == 'v20' else 'not-v20'
                     key = f'from-empty-lump:{view}' + (f':header-{hdr}:bsp-{where}' if view == 'props' or view.startswith('!') else '')
@@ -1426,6 +1442,9 @@ def glue_obligations(glue: dict) -> dict[str, str]:
         obs[f'prop_format_chosen_for_empty_lump_is_found_again:header-{h}'] = f'pv_from_empty_ok_hdr pv_tables {h}%N'
     for k, m in enumerate(pv.get('members', [])):
         obs[f'prop_format_named_is_written_and_found_again:{m[0]}'] = f'forallb (fun bv => hist_named_ok pv_tables bv {k + 1}%N) pv_bsp_versions'
+    # History 3, per header number of the opened file: props assigned to an object that never read the lump
+    for h in range(4, 14):
+        obs[f'prop_format_written_without_reading_is_found_again:header-{h}'] = f'pv_never_read_ok_hdr pv_tables {h}%N'
     obs['prop_format_tables_pass'] = 'pv_ok pv_tables'
     obs['rebuild_order_runs_appending_writers_first'] = 'order_ok rebuild_order append_edges'
     return obs
@@ -1680,6 +1699,7 @@ def run(ck: Ck) -> None:
                 if st.startswith(pref) and (hit_views & set(views) or '!any' in hit_views or '!save' in hit_views or '!read' in hit_views):
                     ck.explain(nm)
         if nm.startswith('instance:prop_format_') and (any(k.startswith('from-empty-lump:props') or k.startswith('from-empty-lump:!') or k.startswith('props')
+                                                            or k.startswith('never-read-then-assign:props') or k.startswith('never-read-then-assign:!')
                                                             for k in keys) or hit_views & {'!read', '!save'}):
             ck.explain(nm)
         if nm.startswith('instance:prop_layout_agree:') or nm.startswith('instance:prop_fields_agree:'):
@@ -1696,8 +1716,8 @@ def replay(data: dict) -> int:
     base = os.path.join(wd, 'base.bsp')
     U.make_base(str(REPO / 'tests' / 'test_vec' / 'rot_main.bsp'), base)
     try:
-        if r.get('history') == 'from_empty':
-            res, _g, chosen = U.from_empty(base, wd, r['cfg'], r['header'], r['seed'], set(r['feats']), r['size'])
+        if r.get('history') in ('from_empty', 'never_read'):
+            res, _g, chosen = U.from_empty(base, wd, r['cfg'], r['header'], r['seed'], set(r['feats']), r['size'], read_first=r['history'] == 'from_empty')
             print('format chosen after reading the empty lump:', chosen)
             print('implementation (read empty, assign, save, re-read) differences per view:', res or 'none')
             return 1 if r['hview'] in res else 0
